@@ -117,6 +117,7 @@ structure Order where
   id : Nat
   market : Nat
   owner : Text          -- the TEXT of the `seller`/`buyer` field as stored with the order
+  ext : String := ""    -- the order's external id ("" = none)
   deriving DecidableEq, Repr
 
 structure Payment where
@@ -130,6 +131,7 @@ structure State where
   grants : List Grant := []
   orders : List Order := []
   payments : List Payment := []
+  commits : List (Nat × String) := []   -- (market, account) pairs with funds committed to the market
   deriving Repr
 
 /-- `storeHasPermission` -/
@@ -202,6 +204,33 @@ def cancelOrder (s : State) (id : Nat) (signer : Text) : Except String State :=
   | some o =>
     if signer ≠ o.owner ∧ !hasPermission s o.market signer .cancel then .error "perm"
     else .ok { s with orders := s.orders.filter (·.id ≠ id) }
+
+/-- `Keeper.SetOrderExternalID` (orders.go:747), after the handler's `CanSetIDs(msg.MarketId, msg.Admin)`:
+the order must exist, must live in the market the request names (`order %d has market id %d,
+expected %d`), must not have that external id already, and (`setOrderInStore`, orders.go:180) the
+(market, external id) index entry must not belong to another order. An empty id clears it. -/
+def setOrderExternalID (s : State) (m id : Nat) (ext : String) : Except String State :=
+  match s.orders.find? (·.id = id) with
+  | none => .error "notfound"
+  | some o =>
+    if o.market ≠ m then .error "invalid"
+    else if o.ext = ext then .error "invalid"
+    else if ext ≠ "" ∧ s.orders.any (fun q => q.market = m ∧ q.ext = ext) then .error "invalid"
+    else .ok { s with orders := s.orders.map fun q => if q.id = id then { q with ext := ext } else q }
+
+/-- `Keeper.ReleaseCommitments` (commitments.go:192) with empty amounts (= everything the account
+has committed): every named account must have funds committed to the market; entries are
+processed in order (a second entry for the same account finds nothing left). -/
+def releasePass (m : Nat) : List String → List (Nat × String) → Option (List (Nat × String))
+  | [], cs => some cs
+  | a :: rest, cs =>
+    if cs.contains (m, a) then releasePass m rest (cs.filter fun c => !(c.1 == m && c.2 == a))
+    else none
+
+def releaseCommitments (s : State) (m : Nat) (accts : List String) : Except String State :=
+  match releasePass m accts s.commits with
+  | some cs => .ok { s with commits := cs }
+  | none => .error "invalid"
 
 def findPayment (s : State) (source extId : String) : Option Payment :=
   s.payments.find? fun p => p.source = source ∧ p.extId = extId
@@ -287,6 +316,18 @@ inductive Op where
   | cancelpay (signer ext : String)
   | retarget (signer ext newTarget : String)
   | gov (module msg : String) (caller : Text) (payload : GovPayload)   -- message `module.msg`
+  /-- `MsgMarketSetOrderExternalIDRequest{Admin: caller, MarketId: m, OrderId: id, ExternalId: ext}`:
+  the order may live in ANY market of the history, not only in the one the request names -/
+  | setid (m id : Nat) (caller : Text) (ext : String)
+  /-- an account committed funds to market `m` (`MsgCommitFundsRequest`, done by the harness) -/
+  | commit (m : Nat) (acct : String)
+  /-- `MsgMarketReleaseCommitmentsRequest{Admin: caller, MarketId: m, ToRelease: accts}` — the
+  caller may itself be the owner of the committed funds -/
+  | release (m : Nat) (caller : Text) (accts : List String)
+  /-- `MsgMarketSettleRequest{Admin: caller, MarketId: m, AskOrderIds: [ask], BidOrderIds: [bid]}`
+  naming two orders of the history (of any market), run on a discarded branch of the state: only
+  the guard's answer is modelled (`pass` = got past `CanSettleOrders`) -/
+  | settle (m ask bid : Nat) (caller : Text)
 
 def opResult (r : Except String State) (s : State) : State × String :=
   match r with
@@ -308,6 +349,14 @@ def applyOp (s : State) : Op → State × String
   | .cancelpay signer ext => opResult (cancelPayment s signer ext) s
   | .retarget signer ext nt => opResult (changeTarget s signer ext nt) s
   | .gov module msg caller _ => (s, if govAllowed s module msg caller then "pass" else "err:authority")
+  | .setid m id caller ext =>
+    if !endpointAllowed s .MarketSetOrderExternalID m caller then (s, "err:perm")
+    else opResult (setOrderExternalID s m id ext) s
+  | .settle m _ _ caller => (s, if endpointAllowed s .MarketSettle m caller then "pass" else "err:perm")
+  | .commit m acct => ({ s with commits := if s.commits.contains (m, acct) then s.commits else s.commits ++ [(m, acct)] }, "ok")
+  | .release m caller accts =>
+    if !endpointAllowed s .MarketReleaseCommitments m caller then (s, "err:perm")
+    else opResult (releaseCommitments s m accts) s
 
 def run (s : State) (ops : List Op) : State := ops.foldl (fun s op => (applyOp s op).1) s
 
